@@ -162,6 +162,19 @@ def deep_equal(a, b) -> bool:
     return type(a) is type(b) and a == b
 
 
+def value_equal(a, b) -> bool:
+    """Equality of JSON-like values as *documents*: NaN == NaN, and a number is its value (12 and 12.0 are the same
+    member value; true/false are not numbers)."""
+    if isinstance(a, dict) and isinstance(b, dict):
+        return a.keys() == b.keys() and all(value_equal(a[k], b[k]) for k in a)
+    if isinstance(a, list) and isinstance(b, list):
+        return len(a) == len(b) and all(value_equal(x, y) for x, y in zip(a, b))
+    num = (int, float)
+    if isinstance(a, num) and isinstance(b, num) and not isinstance(a, bool) and not isinstance(b, bool):
+        return (a != a and b != b) or a == b
+    return type(a) is type(b) and a == b
+
+
 def top_diff(a, b):
     """Seed-stable labels of where two documents differ: every differing top-level key, one level deeper for
     info/settings/model, and field names (not split names) under submodels."""
